@@ -20,12 +20,13 @@ def make_pool(hszinc):
         NONDICT,                         # 5 not a dict
         {'id': 'y2'},                    # 6 another str id
         {'id': Ref('r1', 'Display'), 'v': 7},   # 7 Ref id with display name
+        {'id': 'l1', 'v': [1.0, 'x']},          # 8 a 3.0-only cell: an unversioned grid upgrades itself to 3.0
     ]
 
 
 def row_kind(i):
     return {0: 'str-id', 1: 'no-id', 2: 'int-id', 3: 'ref-id', 4: 'dup-id', 5: 'non-dict', 6: 'str-id',
-            7: 'refdis-id'}[i]
+            7: 'refdis-id', 8: 'v3-cell'}[i]
 
 
 def new_grid(hszinc, version=None):
